@@ -102,12 +102,43 @@ def gen_scenario(rng, big=False):
                 ops.append(['clk', 1, pokes]); pos += 1
     if rng.random() < .3: ops.append(['clear'])
     sc['ops'] = ops
+    # recorders added AFTER the simulator was obtained (and usually after some cycles were run): at top level (one more leaf),
+    # as the first child of a so far empty container block, in place of an existing leaf, or in place of the first recorder
+    # (the last three keep the NUMBER of leaves constant).  hw.getSimulator() is called again after every change.
+    late = []
+    if rng.random() < .4:
+        places = ['top', 'container', 'replace_leaf', 'replace_main']
+        for j in range(rng.randint(1, 2)):
+            pl = rng.choice(places)
+            if pl == 'replace_main': places.remove(pl)
+            ents2 = []
+            for _ in range(rng.randint(1, 4)):
+                k = rng.choice(ents2)[0] if ents2 and rng.random() < .4 else rng.randrange(len(lay))
+                ents2.append([k, rng.choice(forms_of(sc, lay, k))])
+            late.append({'at': rng.randrange(len(ops)), 'place': pl, 'entries': ents2})
+        late.sort(key=lambda r: r['at'])
+    sc['late'] = late
     return sc
 
 
-def ref_run(sc):
-    """independent reference: per scenario operation the list of recorder operations (with the wire values going
-    into each edge) and the expected sample list per wire after the operation."""
+def recorders(sc):
+    """every recorder of a scenario as (key, view): view is a scenario restricted to the recorder's life
+    (ops[at:dead], its own watch list); 'skip' = number of operations before it exists."""
+    nops = len(sc['ops'])
+    dead = min([r['at'] for r in sc.get('late', []) if r['place'] == 'replace_main'] + [nops])
+    out = [('main', dict(sc, ops=sc['ops'][:dead], skip=0, rec_gated=bool(sc.get('gate'))))]
+    for j, r in enumerate(sc.get('late', [])):
+        out.append(('late%d' % j, dict(sc, entries=r['entries'], ops=sc['ops'][r['at']:], skip=r['at'], rec_gated=False, place=r['place'])))
+    return [(k, v) for k, v in out if v['ops']]
+
+
+def ref_run(sc, view=None):
+    """independent reference: per operation of the recorder's life the list of recorder operations (with the wire values
+    going into each edge) and the expected sample list per wire after the operation.  The whole scenario is simulated;
+    the recorder described by `view` (default: the first one) exists for operations skip .. skip+len(view.ops)-1."""
+    view = view or recorders(sc)[0][1]
+    first, last_op = view['skip'], view['skip'] + len(view['ops'])
+    gated = view['rec_gated']
     lay = layout(sc); nin = len(sc['inputs'])
     mask = lambda i: (1 << sc['inputs'][i]['w']) - 1
     inv = [0] * nin; en = 0
@@ -120,12 +151,13 @@ def ref_run(sc):
             out.append(inv[i] if x['kind'] == 'in' else q[i] if x['kind'] == 'q' else (~inv[i]) & mask(i) if x['kind'] == 'n' else en)
         return out
     uniq = []
-    for k, _ in sc['entries']:
+    for k, _ in view['entries']:
         if k not in uniq: uniq.append(k)
     data = {k: [] for k in uniq}
     groups, checkpoints = [], []
-    for op in sc['ops']:
+    for t, op in enumerate(sc['ops']):
         g = []
+        alive = first <= t < last_op
         if op[0] == 'clear':
             for k in data: data[k] = []
             g.append(None)
@@ -137,12 +169,13 @@ def ref_run(sc):
                 else: en = v & 1
             for _ in range(n):
                 vs = vals()
-                if not sc.get('gate') or en != 0:
+                if alive and (not gated or en != 0):
                     g.append(vs)
                     for k in uniq: data[k].append(vs[k])
                 q = list(inv)                     # Reg: q <= d at the edge
-        groups.append(g)
-        checkpoints.append([(k, list(data[k])) for k in uniq])
+        if alive:
+            groups.append(g)
+            checkpoints.append([(k, list(data[k])) for k in uniq])
     return groups, checkpoints
 
 
@@ -157,40 +190,71 @@ def build_real(sc):
         for i, inp in enumerate(sc['inputs']):
             if inp['reg']: regs[i] = py4hw.Reg(hw, 'r%d' % i, byname['in%d' % i], byname['q%d' % i], reset_value=inp.get('rv'))
             if inp['inv']: invs[i] = py4hw.Not(hw, 'inv%d' % i, byname['in%d' % i], byname['n%d' % i])
-        objs = []
-        for k, form in sc['entries']:
-            x = lay[k]; i = x['src']
-            if form == 'wire': objs.append(wires[k])
-            elif form == 'inport_reg': objs.append(regs[i].inPorts[0])
-            elif form == 'inport_inv': objs.append(invs[i].inPorts[0])
-            elif form == 'outport': objs.append((regs if x['kind'] == 'q' else invs)[i].outPorts[0])
-            else: raise ValueError(form)
-            assert objs[-1] is wires[k] or objs[-1].wire is wires[k]
+        def watch(entries):
+            objs = []
+            for k, form in entries:
+                x = lay[k]; i = x['src']
+                if form == 'wire': objs.append(wires[k])
+                elif form == 'inport_reg': objs.append(regs[i].inPorts[0])
+                elif form == 'inport_inv': objs.append(invs[i].inPorts[0])
+                elif form == 'outport': objs.append((regs if x['kind'] == 'q' else invs)[i].outPorts[0])
+                else: raise ValueError(form)
+                assert objs[-1] is wires[k] or objs[-1].wire is wires[k]
+            return objs
+        objs = watch(sc['entries'])
         wf = Waveform(hw, 'wf', objs)
         if sc.get('gate'):
             wf.clockDriver = py4hw.ClockDriver('gclk', base=hw.clockDriver, enable=byname['en'])
+        # blocks that exist from the start and later receive / are replaced by a recorder
+        for j, r in enumerate(sc.get('late', [])):
+            if r['place'] == 'container': py4hw.Logic(hw, 'box%d' % j)
+            elif r['place'] == 'replace_leaf': py4hw.Logic(hw, 'dum%d' % j)
         sim = hw.getSimulator()
-    return hw, sim, wf, wires, objs
+    return hw, sim, wf, wires, objs, watch
+
+
+def add_late(hw, j, r, watch):
+    """change the hierarchy after the simulator exists; the caller obtains the simulator again."""
+    py4hw, Waveform = _imp()
+    objs = watch(r['entries'])
+    if r['place'] == 'top': return Waveform(hw, 'late%d' % j, objs), objs
+    if r['place'] == 'container': return Waveform(hw.children['box%d' % j], 'wv', objs), objs
+    name = 'dum%d' % j if r['place'] == 'replace_leaf' else 'wf'
+    del hw.children[name]
+    return Waveform(hw, name, objs), objs
 
 
 def impl_run(sc):
-    """the real class: after every operation (getDict as [(wire index, samples)], get_wavedrom(), get_wavedrom(True))."""
-    hw, sim, wf, wires, objs = build_real(sc)
+    """the real class.  returns {recorder key: (snaps, names)}: after every operation of the recorder's life
+    (getDict as [(wire index, samples)], get_wavedrom(), get_wavedrom(True))."""
+    hw, sim, wf, wires, objs, watch = build_real(sc)
     idx = {id(w): k for k, w in enumerate(wires)}
     inwire = {x['src']: k for k, x in enumerate(layout(sc)) if x['kind'] in ('in', 'en')}
-    snaps = []
-    for op in sc['ops']:
+    live = {'main': (wf, objs)}
+    snaps = {'main': []}
+    for t, op in enumerate(sc['ops']):
+        for j, r in enumerate(sc.get('late', [])):
+            if r['at'] == t:
+                with quiet():
+                    live['late%d' % j] = add_late(hw, j, r, watch)
+                    if r['place'] == 'replace_main': live.pop('main', None)
+                    sim = hw.getSimulator()            # the documented way to refresh the schedule after a change
+                snaps['late%d' % j] = []
         if op[0] == 'clear':
-            wf.clear()
+            for rec, _ in live.values(): rec.clear()
         else:
             _, n, pokes = op
             for i, v in pokes.items(): wires[inwire[int(i)]].put(v)
-            with quiet(): sim.clk(n)
-        d = wf.getDict()
-        snaps.append({'dict': [(idx[id(w)], list(v)) for w, v in d.items()],
-                      'wd': json.loads(json.dumps(wf.get_wavedrom())), 'wd_short': json.loads(json.dumps(wf.get_wavedrom(True)))})
-    names = {'short': ['clk'] + [o.name for o in objs], 'full': ['clk'] + [o.getFullPath() for o in objs], 'wf': wf.name}
-    return snaps, names
+            with quiet(): sim = hw.getSimulator(); sim.clk(n)
+        for key, (rec, _) in live.items():
+            d = rec.getDict()
+            snaps[key].append({'dict': [(idx[id(w)], list(v)) for w, v in d.items()],
+                               'wd': json.loads(json.dumps(rec.get_wavedrom())), 'wd_short': json.loads(json.dumps(rec.get_wavedrom(True)))})
+    out = {}
+    allrec = dict(live); allrec.setdefault('main', (wf, objs))
+    for key, (rec, ob) in allrec.items():
+        out[key] = (snaps[key], {'short': ['clk'] + [o.name for o in ob], 'full': ['clk'] + [o.getFullPath() for o in ob], 'wf': rec.name})
+    return out
 
 
 def py_decode(ww, wave, labels):
@@ -220,8 +284,10 @@ def py_decode(ww, wave, labels):
 def check_py(sc, snaps, names, checkpoints):
     """impl vs spec (Python side).  returns None or a description of the first discrepancy."""
     lay = layout(sc)
+    if len(snaps) != len(checkpoints):
+        return {'what': 'harness: %d snapshots for %d operations' % (len(snaps), len(checkpoints))}
     for t, (snap, exp) in enumerate(zip(snaps, checkpoints)):
-        where = 'after operation %d %r' % (t, sc['ops'][t][:2])
+        where = 'after operation %d %r' % (t + sc.get('skip', 0), sc['ops'][t][:2])
         if snap['dict'] != exp:
             return {'what': 'getDict() differs from the values the wires carried going into each edge', 'where': where,
                     'impl': snap['dict'], 'expected': exp}
@@ -308,24 +374,30 @@ def sweep_A(ctx, n, seed_base, with_coq, big=False):
     for i in range(n):
         seed = seed_base + i
         sc = gen_scenario(random.Random(seed), big=big)
-        groups, checkpoints = ref_run(sc)
         try:
-            snaps, names = impl_run(sc)
+            impl = impl_run(sc)
         except Exception as ex:
-            ctx.violation({'what': 'the real Waveform raised %s: %s on a legal watch list / history' % (type(ex).__name__, ex),
+            ctx.violation({'what': 'the real Waveform / simulator raised %s: %s on a legal watch list / history' % (type(ex).__name__, ex),
                            'scenario': sc, 'scenario_seed': seed})
             return False, True
-        bad = check_py(sc, snaps, names, checkpoints)
-        ctx.count(('A', tuple(x['w'] for x in layout(sc)), tuple(map(tuple, sc['entries'])), len(sc['ops']), bool(sc.get('gate'))),
-                  n=sum(len(s['wd']['signal']) for s in snaps))
-        if bad:
-            bad.update({'scenario': sc, 'scenario_seed': seed, 'replay_hint': 'props.c15.replay rebuilds the design from "scenario" and reruns the real Waveform'})
-            ctx.violation(bad)
-            return False, True
-        if i < 2:
-            ctx.sample({'scenario': {'widths': [x['w'] for x in layout(sc)], 'entries': sc['entries'], 'ops': sc['ops'][:4]},
-                        'last_getDict': snaps[-1]['dict'], 'last_rows': snaps[-1]['wd_short']['signal'][:4]})
-        batch.append((sc, groups, snaps))
+        for key, view in recorders(sc):
+            groups, checkpoints = ref_run(sc, view)
+            snaps, names = impl[key]
+            bad = check_py(view, snaps, names, checkpoints)
+            ctx.count(('A', tuple(x['w'] for x in layout(sc)), tuple(map(tuple, view['entries'])), len(view['ops']), view['rec_gated'],
+                       view.get('place', 'initial'), view['skip'] > 0),
+                      n=sum(len(s['wd']['signal']) for s in snaps))
+            if bad:
+                bad.update({'recorder': key, 'added': ('before the simulator was obtained' if key == 'main' else
+                                                      'after the simulator was obtained, before operation %d, place=%s' % (view['skip'], view.get('place'))),
+                            'scenario': sc, 'scenario_seed': seed,
+                            'replay_hint': 'props.c15.replay rebuilds the design from "scenario" and reruns the real Waveform'})
+                ctx.violation(bad)
+                return False, True
+            if i < 2 and key == 'main':
+                ctx.sample({'scenario': {'widths': [x['w'] for x in layout(sc)], 'entries': sc['entries'], 'ops': sc['ops'][:4], 'late': sc.get('late')},
+                            'last_getDict': snaps[-1]['dict'], 'last_rows': snaps[-1]['wd_short']['signal'][:4]})
+            batch.append((view, groups, snaps))
     if not with_coq:
         return True, True
     tie_ok = True
@@ -490,9 +562,13 @@ def replay(rp):
     sc = rp.get('scenario')
     if not sc:
         print('C15 replay: no scenario in the file; it describes the failure:'); print(json.dumps(rp, indent=1)[:4000]); return 0
-    groups, checkpoints = ref_run(sc)
-    snaps, names = impl_run(sc)
-    bad = check_py(sc, snaps, names, checkpoints)
+    sc.setdefault('late', [])
+    impl = impl_run(sc)
+    bad = None
+    for key, view in recorders(sc):
+        groups, checkpoints = ref_run(sc, view)
+        bad = check_py(view, impl[key][0], impl[key][1], checkpoints)
+        if bad: bad['recorder'] = key; break
     if bad:
         print('C15 replay: STILL FAILING'); print(json.dumps(bad, indent=1, default=str)[:3000]); return 1
     print('C15 replay: the scenario passes now'); return 0
